@@ -81,10 +81,16 @@ bool DyndepLoader::LoadDyndeps(Node* node, DyndepFile* ddf,
 bool DyndepLoader::UpdateEdge(Edge* edge, Dyndeps const* dyndeps,
                               std::string* err) const {
   // Add dyndep-discovered bindings to the edge.
-  // We know the edge already has its own binding
-  // scope because it has a "dyndep" binding.
-  if (dyndeps->restat_)
+  if (dyndeps->restat_) {
+    // The "dyndep" binding may come from the rule, so the edge need not have
+    // a binding scope of its own.  It then shares the scope of its file, and
+    // binding restat there would turn every such edge into a restat edge.
+    if (!edge->has_own_env_) {
+      edge->env_ = new BindingEnv(edge->env_);
+      edge->has_own_env_ = true;
+    }
     edge->env_->AddBinding("restat", "1");
+  }
 
   // Add the dyndep-discovered outputs to the edge.
   edge->outputs_.insert(edge->outputs_.end(),
